@@ -6,6 +6,7 @@ import (
 	"os"
 
 	"github.com/gardenbed/emerge/zz_verif/c13"
+	"github.com/gardenbed/emerge/zz_verif/c14"
 	"github.com/gardenbed/emerge/zz_verif/c18"
 	"github.com/gardenbed/emerge/zz_verif/simrt"
 )
@@ -14,6 +15,7 @@ func main() {
 	fx := os.Getenv("VERIF_FIXTURES")
 	simrt.Main(
 		c13.Engine{FixtureDir: fx},
+		c14.Engine{FixtureDir: fx, EmergeBin: os.Getenv("VERIF_EMERGE_BIN")},
 		c18.Engine{FixtureDir: fx},
 	)
 }
